@@ -380,6 +380,12 @@ func (res *Response) Flush() {
 
 	res.WriteHeader(http.StatusOK)
 	res.checkChunked()
+	if !res.chunked && len(res.header[contentLengthHeader]) == 0 {
+		// Neither chunked nor of a declared length (an HTTP/1.0 request):
+		// the head has to announce the length of the whole body, which is
+		// only known at the end. Keep buffering.
+		return
+	}
 	res.eoncodeHead()
 
 	conn := res.Parser.Conn
